@@ -32,6 +32,8 @@ pub struct Plan {
     pub refuse: Vec<usize>,
     /// user calls landed before loop iteration k
     pub controls: BTreeMap<usize, Control>,
+    /// user calls landed right after the n-th connection loss (while the client is reconnecting)
+    pub on_drop: BTreeMap<usize, Control>,
 }
 
 #[derive(Clone, Copy, Debug, PartialEq, Eq)]
@@ -51,6 +53,9 @@ struct GateInner {
     eof_now: bool,
     io_log: Vec<String>,
     generation: u64,
+    /// generation of the stream the event loop is really using (set at its first read; abandoned connection attempts never read)
+    active_generation: u64,
+    connections: usize,
 }
 
 pub struct Gate { inner: Mutex<GateInner>, cv: Condvar }
@@ -60,6 +65,16 @@ pub struct GStream { gate: Arc<Gate>, generation: u64 }
 impl Read for GStream {
     fn read(&mut self, buf: &mut [u8]) -> std::io::Result<usize> {
         let mut g = self.gate.inner.lock().unwrap();
+        if g.active_generation != self.generation {
+            // first read on a new connection: this is the stream the loop adopted
+            g.active_generation = self.generation;
+            let stale = std::mem::take(&mut g.received);
+            g.received_old.extend(stale);
+            g.available.clear();
+            g.eof_now = false;
+            g.go = false;
+            g.connections += 1;
+        }
         g.phase = Phase::InRead;
         self.gate.cv.notify_all();
         while !g.go { g = self.gate.cv.wait(g).unwrap(); }
@@ -123,7 +138,7 @@ impl Write for GStream {
 impl Drop for GStream {
     fn drop(&mut self) {
         let mut g = self.gate.inner.lock().unwrap();
-        if g.generation == self.generation { g.phase = Phase::Dropped; }
+        if g.active_generation == self.generation { g.phase = Phase::Dropped; }
         self.gate.cv.notify_all();
     }
 }
@@ -171,7 +186,7 @@ fn wait_until<F: FnMut() -> bool>(mut f: F, timeout: Duration) -> bool {
 /// Runs the fixed workload on the real threaded client under `plan`.
 pub fn execute(plan: &Plan) -> Outcome {
     let mut out = Outcome { plan: plan.clone(), ..Default::default() };
-    let gate = Arc::new(Gate { inner: Mutex::new(GateInner { phase: Phase::Running, go: false, available: VecDeque::new(), received: Vec::new(), received_old: Vec::new(), reads: 0, writes: 0, flushes: 0, plan: plan.clone(), eof_now: false, io_log: Vec::new(), generation: 0 }), cv: Condvar::new() });
+    let gate = Arc::new(Gate { inner: Mutex::new(GateInner { phase: Phase::Running, go: false, available: VecDeque::new(), received: Vec::new(), received_old: Vec::new(), reads: 0, writes: 0, flushes: 0, plan: plan.clone(), eof_now: false, io_log: Vec::new(), generation: 0, active_generation: 0, connections: 0 }), cv: Condvar::new() });
     let conn = Arc::new((Mutex::new(ConnCtl { decisions_made: 0, calls: 0 }), Condvar::new()));
     let refuse = plan.refuse.clone();
     let factory_gate = gate.clone();
@@ -185,11 +200,6 @@ pub fn execute(plan: &Plan) -> Outcome {
         }
         let mut g = factory_gate.inner.lock().unwrap();
         g.generation += 1;
-        let stale = std::mem::take(&mut g.received);
-        g.received_old.extend(stale);
-        g.phase = Phase::Running;
-        g.available.clear();
-        g.eof_now = false;
         let generation = g.generation;
         drop(g);
         lock.lock().unwrap().decisions_made += 1;
@@ -245,6 +255,7 @@ pub fn execute(plan: &Plan) -> Outcome {
     let deadline = Instant::now() + Duration::from_secs(20);
     let mut control_done: Vec<usize> = Vec::new();
     let mut idle_iterations = 0usize;
+    let mut drops = 0usize;
 
     let submit_extra = |client: &SyncClientHandle, receivers_pub: &mut Vec<Slot<PublishResult>>, name: &str| {
         let packet = PublishPacket::builder("extra".to_string(), QualityOfService::AtLeastOnce).with_payload(vec![9, 9, 9]).build();
@@ -255,10 +266,10 @@ pub fn execute(plan: &Plan) -> Outcome {
         if Instant::now() > deadline { out.machinery.push(format!("execution did not finish in 20 s (iteration {}, events {:?})", iteration, events.lock().unwrap())); break; }
         // where is the loop?
         let phase = { gate.inner.lock().unwrap().phase };
-        let generation_calls = conn.0.lock().unwrap().decisions_made;
+        let generation_calls = gate.inner.lock().unwrap().connections;
         if generation_calls > connections_seen && phase != Phase::Dropped {
             connections_seen = generation_calls;
-            if !plan.refuse.contains(&(generation_calls - 1)) {
+            {
                 let stale: Vec<u8> = { let mut g = gate.inner.lock().unwrap(); std::mem::take(&mut g.received_old) };
                 if connection_open { broker.client_bytes(&stale); broker.close_connection(); }
                 broker.open_connection(); connection_open = true;
@@ -331,11 +342,24 @@ pub fn execute(plan: &Plan) -> Outcome {
                     let received: Vec<u8> = { let mut g = gate.inner.lock().unwrap(); std::mem::take(&mut g.received) };
                     broker.client_bytes(&received);
                     broker.close_connection();
+                    if let Some(control) = plan.on_drop.get(&drops) {
+                        if !close_issued {
+                            match control {
+                                Control::Close => { let _ = client.close(); close_issued = true; }
+                                Control::CloseThenSubmit => { let _ = client.close(); close_issued = true; submit_extra(&client, &mut receivers_pub, "after-close"); }
+                                Control::SubmitThenClose => { submit_extra(&client, &mut receivers_pub, "before-close"); let _ = client.close(); close_issued = true; }
+                                Control::Stop => { let _ = client.stop(None); stop_issued = true; }
+                                Control::StopDisconnect => { let _ = client.stop(Some(StopOptions::builder().with_disconnect_packet(DisconnectPacket::builder().build()).build())); stop_issued = true; }
+                                Control::StopThenStart => { let _ = client.stop(None); let _ = client.start(None); }
+                            }
+                        }
+                    }
+                    drops += 1;
                 }
                 // not connected: the loop polls the operation channel / the connection result on its own
                 let stopped = events.lock().unwrap().iter().filter(|e| *e == "Stopped").count();
                 if stop_issued && stopped > 0 && !close_issued {
-                    if plan.controls.values().any(|c| matches!(c, Control::Stop | Control::StopDisconnect)) && !restart_pending && !(receivers_pub.iter_mut().all(|r| r.poll()) && receivers_sub.iter_mut().all(|r| r.poll())) {
+                    if plan.controls.values().chain(plan.on_drop.values()).any(|c| matches!(c, Control::Stop | Control::StopDisconnect)) && !restart_pending && !(receivers_pub.iter_mut().all(|r| r.poll()) && receivers_sub.iter_mut().all(|r| r.poll())) {
                         // a stop landed by the plan in mid-workload: start again, everything must still complete
                         restart_pending = true; stop_issued = false;
                         if client.start(None).is_err() { out.problem("start-after-stop-fails", "start() after a Stopped event returned an error"); break 'outer; }
@@ -386,7 +410,7 @@ pub fn execute(plan: &Plan) -> Outcome {
     if calls < callbacks_expected { out.problem("operation-callback-never-invoked", format!("{} of {} callbacks ran", calls, callbacks_expected)); }
     if calls > callbacks_expected { out.problem("operation-callback-invoked-twice", format!("{} calls for {} operations", calls, callbacks_expected)); }
     // with no faults and no early stop/close everything must have succeeded
-    let benign = plan.reads.values().all(|d| matches!(d, ReadDev::One | ReadDev::Half | ReadDev::Block)) && plan.writes.values().all(|d| matches!(d, WriteDev::One | WriteDev::AllButOne | WriteDev::Block | WriteDev::Interrupted)) && plan.flush_errors.is_empty() && plan.controls.is_empty() && plan.refuse.is_empty();
+    let benign = plan.reads.values().all(|d| matches!(d, ReadDev::One | ReadDev::Half | ReadDev::Block)) && plan.writes.values().all(|d| matches!(d, WriteDev::One | WriteDev::AllButOne | WriteDev::Block | WriteDev::Interrupted)) && plan.flush_errors.is_empty() && plan.controls.is_empty() && plan.on_drop.is_empty() && plan.refuse.is_empty();
     if benign && out.machinery.is_empty() {
         if out.results.iter().any(|r| !r.ends_with(":ok") && !r.starts_with("invalid-")) { let r = out.results.clone(); out.problem("operation-failed-under-benign-transport-behaviour", format!("results {:?}", r)); }
         if out.connections != 1 { let n = out.connections; out.problem("reconnect-under-benign-transport-behaviour", format!("{} connections", n)); }
